@@ -81,37 +81,12 @@ def stamping_rule(prog, run, rid):
     run.ob(rid, "the stamped record is entered into the table once", sl.site, added_ok)
 
 
-def check(ctx, run):
-    prog = ctx.program()
-    run.assume("allocator addresses are arbitrary; the list/bucket primitives are folded over every list of up to 4 records and every match pattern, which covers all states of their uniform per-node transitions")
-    run.not_decided.append("that the table equals the set of outstanding blocks after EVERY history of operations (heap-shape property over unbounded histories); decided: each primitive's effect on every short list, the bucket/period tables and the pairing of every allocate/release path with exactly one insert/remove")
-    run.rule("R1", "bucket agreement: add/remove/retrieve/next-leak index table_ by hash(the block address) through one hash whose result is below the table extent", floor=7)
-    run.rule("R2", "bucket coverage: totals, first-leak and clear loops visit [0, hash_prime); next-leak continues in the leak's own chain and then in [hash+1, hash_prime)", floor=6)
-    run.rule("R3", "isInPeriod folded over MemLeakPeriod x MemLeakPeriod (16 cells) equals the oracle table", floor=16, exhaustive=True)
-    run.rule("R4", "list surgery folded over every list of 0..4 records x every match pattern: clearAllAccounting removes exactly the matching records and keeps the others in order; removeNode unlinks exactly the addressed record; retrieve/total/first-from agree with the list", floor=90, exhaustive=True)
-    run.rule("R5", "bookkeeping pairing: allocMemory stores one record on success and none on failure; deallocMemory removes first; reallocMemory removes then stores once on success", floor=5)
-    run.rule("R6", "stamping: a new record carries the current period, allocation stage, sequence number, size, file and line", floor=5)
-    run.rule("R7", "report totals: reportMemoryLeak counts every leak it is given (also when the text buffer is full); the report walk uses one period from first to next and is bracketed by start/stop", floor=4)
-    run.rule("R8", "routing: every global operator new/delete overload forwards to the slot of its own family; the tracked functions use the allocator of their family and separate records exactly for the malloc family; slot switch/save/restore tables", floor=80)
-
-    # ---------------- R1 / R2 -----------------------------------------------
+def table_walk_rules(prog, run, r_agree, r_cover, only=None):
+    """bucket agreement (r_agree) and coverage (r_cover) of the leak table, decided by folding every table method against
+    recording bucket stubs. `only`: restrict to the named table methods (C07 re-uses the leak walkers)."""
     hp = [e["v"] for en in prog.enums.values() for e in en["enumerators"] if e["name"] == "hash_prime"]
-    rec = prog.records.get(TAB, {})
-    ext = [fl.get("extent") for fl in rec.get("fields", []) if fl["name"] == "table_"]
-    run.ob("R1", "table extent equals hash_prime", "include/CppUTest/MemoryLeakDetector.h:" + TAB, bool(hp) and ext == [hp[0]], witness={"extent": ext, "hash_prime": hp})
-    hs = prog.fn(TAB + "::hash")
-    run.analysed(hs)
-    okh = True
-    for addr in (0, 1, 72, 73, 74, 4096, 0x7ffff7a0c010, (1 << 64) - 1, (1 << 63) + 5):
-        ev = Evaluator(prog, hs, env={hs.params[0]["name"]: addr})
-        try:
-            ev.run_blocks(hs.entry)
-            got = getattr(ev, "ret", None)
-        except Unknown as u:
-            got = "unknown: %s" % u
-        if got != addr % hp[0]:
-            okh = False
-    run.ob("R1", "hash(address) = address mod hash_prime (always below the extent)", hs.site, okh)
+    if not hp:
+        raise AnalysisBroken("hash_prime not found")
     HP = hp[0]
     TINL = {g.qn for g in prog.functions.values() if g.qn.startswith(TAB + "::")}
     NODE, OTHER = 5000, 6000      # addresses of records (heap model)
@@ -144,6 +119,8 @@ def check(ctx, run):
         return r, seq
 
     def table_rule(rule, meth, text, cases, what=""):
+        if only is not None and meth not in only:
+            return
         f = prog.fn(TAB + "::" + meth)
         run.analysed(f)
         bad, ncase = None, 0
@@ -178,7 +155,7 @@ def check(ctx, run):
                 yield "address %#x" % addr, env, (lambda m, b, a_: 777), judge
         return gen
     for meth, by_node in (("addNewNode", True), ("removeNode", False), ("retrieveNode", False)):
-        table_rule("R1", meth, "files/searches in bucket hash(the block's own address) and nowhere else", file_cases(meth, by_node),
+        table_rule(r_agree, meth, "files/searches in bucket hash(the block's own address) and nowhere else", file_cases(meth, by_node),
                    what="a record is filed or searched in a bucket other than hash(its address): blocks are lost or never found")
 
     def next_cases(meth, first):
@@ -214,11 +191,11 @@ def check(ctx, run):
                             return "" if r == wr else "returns %s, expected %s" % (r, wr)
                         yield "leak in bucket %d, %s" % (h, "next in its chain" if found_in_chain else ("next leak in bucket %s" % k if k is not None else "no later leak")), env, answers, judge
         return gen
-    table_rule("R1", "getNextLeak", "continues in the bucket of the given leak", next_cases("getNextLeak", "getFirstLeak"))
-    table_rule("R1", "getNextLeakForAllocationStage", "continues in the bucket of the given leak", next_cases("getNextLeakForAllocationStage", "getFirstLeakForAllocationStage"))
-    table_rule("R2", "getNextLeak", "then visits every later bucket [hash+1, hash_prime) in order until a leak is found", next_cases("getNextLeak", "getFirstLeak"),
+    table_rule(r_agree, "getNextLeak", "continues in the bucket of the given leak", next_cases("getNextLeak", "getFirstLeak"))
+    table_rule(r_agree, "getNextLeakForAllocationStage", "continues in the bucket of the given leak", next_cases("getNextLeakForAllocationStage", "getFirstLeakForAllocationStage"))
+    table_rule(r_cover, "getNextLeak", "then visits every later bucket [hash+1, hash_prime) in order until a leak is found", next_cases("getNextLeak", "getFirstLeak"),
                what="some buckets are never visited: their leaks are missing from the report")
-    table_rule("R2", "getNextLeakForAllocationStage", "then visits every later bucket [hash+1, hash_prime) in order until a leak is found", next_cases("getNextLeakForAllocationStage", "getFirstLeakForAllocationStage"),
+    table_rule(r_cover, "getNextLeakForAllocationStage", "then visits every later bucket [hash+1, hash_prime) in order until a leak is found", next_cases("getNextLeakForAllocationStage", "getFirstLeakForAllocationStage"),
                what="some buckets are never visited: their leaks are missing from the report")
 
     def all_cases(meth, arity):
@@ -237,9 +214,9 @@ def check(ctx, run):
                 return ""
             yield "every bucket answers its index + 1", env, (lambda m, b, a_: (b + 1) if b is not None else 0), judge
         return gen
-    table_rule("R2", "getTotalLeaks", "visits every bucket [0, hash_prime) once and adds up their totals", all_cases("getTotalLeaks", 1),
+    table_rule(r_cover, "getTotalLeaks", "visits every bucket [0, hash_prime) once and adds up their totals", all_cases("getTotalLeaks", 1),
                what="some buckets are never visited: their blocks are missing from totals, reports or clearing")
-    table_rule("R2", "clearAllAccounting", "visits every bucket [0, hash_prime) once", all_cases("clearAllAccounting", 1),
+    table_rule(r_cover, "clearAllAccounting", "visits every bucket [0, hash_prime) once", all_cases("clearAllAccounting", 1),
                what="some buckets are never visited: their blocks are missing from totals, reports or clearing")
 
     def first_cases(meth):
@@ -258,10 +235,45 @@ def check(ctx, run):
                     return "" if r == wr else "returns %s, expected %s" % (r, wr)
                 yield ("first leak in bucket %d" % k) if k is not None else "no leak", env, (lambda m, b, a_, k=k: OTHER + b if b == k else 0), judge
         return gen
-    table_rule("R2", "getFirstLeak", "visits every bucket [0, hash_prime) in order until a leak is found and returns it", first_cases("getFirstLeak"),
+    table_rule(r_cover, "getFirstLeak", "visits every bucket [0, hash_prime) in order until a leak is found and returns it", first_cases("getFirstLeak"),
                what="some buckets are never visited: their blocks are missing from totals, reports or clearing")
-    table_rule("R2", "getFirstLeakForAllocationStage", "visits every bucket [0, hash_prime) in order until a leak is found and returns it", first_cases("getFirstLeakForAllocationStage"),
+    table_rule(r_cover, "getFirstLeakForAllocationStage", "visits every bucket [0, hash_prime) in order until a leak is found and returns it", first_cases("getFirstLeakForAllocationStage"),
                what="some buckets are never visited: their blocks are missing from totals, reports or clearing")
+
+
+
+def check(ctx, run):
+    prog = ctx.program()
+    run.assume("allocator addresses are arbitrary; the list/bucket primitives are folded over every list of up to 4 records and every match pattern, which covers all states of their uniform per-node transitions")
+    run.not_decided.append("that the table equals the set of outstanding blocks after EVERY history of operations (heap-shape property over unbounded histories); decided: each primitive's effect on every short list, the bucket/period tables and the pairing of every allocate/release path with exactly one insert/remove")
+    run.rule("R1", "bucket agreement: add/remove/retrieve/next-leak index table_ by hash(the block address) through one hash whose result is below the table extent", floor=7)
+    run.rule("R2", "bucket coverage: totals, first-leak and clear loops visit [0, hash_prime); next-leak continues in the leak's own chain and then in [hash+1, hash_prime)", floor=6)
+    run.rule("R3", "isInPeriod folded over MemLeakPeriod x MemLeakPeriod (16 cells) equals the oracle table", floor=16, exhaustive=True)
+    run.rule("R4", "list surgery folded over every list of 0..4 records x every match pattern: clearAllAccounting removes exactly the matching records and keeps the others in order; removeNode unlinks exactly the addressed record; retrieve/total/first-from agree with the list", floor=90, exhaustive=True)
+    run.rule("R5", "bookkeeping pairing: allocMemory stores one record on success and none on failure; deallocMemory removes first; reallocMemory removes then stores once on success", floor=5)
+    run.rule("R6", "stamping: a new record carries the current period, allocation stage, sequence number, size, file and line", floor=5)
+    run.rule("R7", "report totals: reportMemoryLeak counts every leak it is given (also when the text buffer is full); the report walk uses one period from first to next and is bracketed by start/stop", floor=4)
+    run.rule("R8", "routing: every global operator new/delete overload forwards to the slot of its own family; the tracked functions use the allocator of their family and separate records exactly for the malloc family; slot switch/save/restore tables", floor=80)
+
+    # ---------------- R1 / R2 -----------------------------------------------
+    hp = [e["v"] for en in prog.enums.values() for e in en["enumerators"] if e["name"] == "hash_prime"]
+    rec = prog.records.get(TAB, {})
+    ext = [fl.get("extent") for fl in rec.get("fields", []) if fl["name"] == "table_"]
+    run.ob("R1", "table extent equals hash_prime", "include/CppUTest/MemoryLeakDetector.h:" + TAB, bool(hp) and ext == [hp[0]], witness={"extent": ext, "hash_prime": hp})
+    hs = prog.fn(TAB + "::hash")
+    run.analysed(hs)
+    okh = True
+    for addr in (0, 1, 72, 73, 74, 4096, 0x7ffff7a0c010, (1 << 64) - 1, (1 << 63) + 5):
+        ev = Evaluator(prog, hs, env={hs.params[0]["name"]: addr})
+        try:
+            ev.run_blocks(hs.entry)
+            got = getattr(ev, "ret", None)
+        except Unknown as u:
+            got = "unknown: %s" % u
+        if got != addr % hp[0]:
+            okh = False
+    run.ob("R1", "hash(address) = address mod hash_prime (always below the extent)", hs.site, okh)
+    table_walk_rules(prog, run, "R1", "R2")
 
     # ---------------- R3 ----------------------------------------------------
     ip = prog.fn(LST + "::isInPeriod")
